@@ -279,56 +279,51 @@ Check C04_subword_ids :
     /\ NoDup (map fst (get_subwords rt first)).
 Print Assumptions C04_subword_ids.
 
-(** two within-word automata sharing one table set have identical tables, literal texts and completion-side compadd excepted *)
+(** two within-word automata sharing one table set have identical tables, literal texts excepted *)
 Theorem C04_shape_sharing_sound :
   forall a b : tables, isomorphic_to a b = true ->
     t_mlit a = t_mlit b /\ t_mcmd a = t_mcmd b /\ t_mcompadd a = t_mcompadd b /\ t_mstar a = t_mstar b
-    /\ t_maxlevel a = t_maxlevel b /\ t_clit a = t_clit b /\ t_ccmd a = t_ccmd b.
+    /\ t_maxlevel a = t_maxlevel b /\ t_clit a = t_clit b /\ t_ccmd a = t_ccmd b /\ t_ccompadd a = t_ccompadd b.
 Proof. exact isomorphic_sound. Qed.
 Check C04_shape_sharing_sound :
   forall a b : tables, isomorphic_to a b = true ->
     t_mlit a = t_mlit b /\ t_mcmd a = t_mcmd b /\ t_mcompadd a = t_mcompadd b /\ t_mstar a = t_mstar b
-    /\ t_maxlevel a = t_maxlevel b /\ t_clit a = t_clit b /\ t_ccmd a = t_ccmd b.
+    /\ t_maxlevel a = t_maxlevel b /\ t_clit a = t_clit b /\ t_ccmd a = t_ccmd b /\ t_ccompadd a = t_ccompadd b.
 Print Assumptions C04_shape_sharing_sound.
 
-(** bash, fish, pwsh (no compadd tables): the shared set IS the member's own *)
-Theorem C04_shape_sharing_sound_no_compadd :
-  forall a b : tables, isomorphic_to a b = true -> t_ccompadd a = None -> t_ccompadd b = None ->
+(** all four shells: the shared table set IS the member's own (only the literal list is per word) *)
+Theorem C04_shape_sharing_exact :
+  forall a b : tables, isomorphic_to a b = true ->
     b = mktables (t_literals b) (t_mlit a) (t_mcmd a) (t_mcompadd a) (t_mstar a) (t_maxlevel a) (t_clit a) (t_ccmd a) (t_ccompadd a).
-Proof. exact isomorphic_sound_no_compadd. Qed.
-Check C04_shape_sharing_sound_no_compadd :
-  forall a b : tables, isomorphic_to a b = true -> t_ccompadd a = None -> t_ccompadd b = None ->
+Proof. exact isomorphic_sound_full. Qed.
+Check C04_shape_sharing_exact :
+  forall a b : tables, isomorphic_to a b = true ->
     b = mktables (t_literals b) (t_mlit a) (t_mcmd a) (t_mcompadd a) (t_mstar a) (t_maxlevel a) (t_clit a) (t_ccmd a) (t_ccompadd a).
-Print Assumptions C04_shape_sharing_sound_no_compadd.
+Print Assumptions C04_shape_sharing_exact.
 
-
-(** KNOWN FINDING (zsh): [isomorphic_to] ignores the completion-side compadd table, which the shape
-    function prints.  Witness: cmd --p1=(<ZA> || <ZB>) | --p2=(<ZB> || <ZA>); with <ZA@zsh>, <ZB@zsh>:
-    the two within-word automata differ only in the fallback level of the two compadd commands, are
-    put into one shape group, and --p2= completes with the levels of --p1=. *)
+(** Regression (formerly C04_refuted_zsh_compadd_levels, fixed by 5c017d7): for
+    cmd --p1=(<ZA> || <ZB>) | --p2=(<ZB> || <ZA>); with <ZA@zsh>, <ZB@zsh> the two within-word automata
+    differ only in the fallback level of the two compadd commands; they are no longer isomorphic, so
+    they no longer share one table set. *)
 Definition zc_sub (pre a b : string) : dfa :=
   mkdfa 0 [(0, [(0, 1)]); (1, [(1, 2); (2, 2)])] [2] [ILit pre None 0; ICompadd a 0; ICompadd b 1].
 Definition zc_cdfa : cdfa :=
   mkcdfa (mkdfa 0 [(0, [(0, 1); (1, 1)])] [1] [ISub 0 0; ISub 1 0])
          [zc_sub "--p1=" "_za" "_zb"; zc_sub "--p2=" "_zb" "_za"].
-Theorem C04_refuted_zsh_compadd_levels :
-  exists nd a t1 t2,
-    valid_orders zc_cdfa [] [(0, [("--p1=", "")]); (1, [("--p2=", "")])] = true
-    /\ all_tables Zsh zc_cdfa [] [(0, [("--p1=", "")]); (1, [("--p2=", "")])] = Ok (nd, a)
-    /\ a_subwords a = [(0, 1, t1); (1, 2, t2)]
-    /\ isomorphic_to t1 t2 = true
-    /\ t_ccompadd t1 = Some [[(1, [0])]; [(1, [1])]]
-    /\ t_ccompadd t2 = Some [[(1, [1])]; [(1, [0])]].
-Proof. vm_compute. do 4 eexists. repeat split. Qed.
-Check C04_refuted_zsh_compadd_levels :
-  exists nd a t1 t2,
-    valid_orders zc_cdfa [] [(0, [("--p1=", "")]); (1, [("--p2=", "")])] = true
-    /\ all_tables Zsh zc_cdfa [] [(0, [("--p1=", "")]); (1, [("--p2=", "")])] = Ok (nd, a)
-    /\ a_subwords a = [(0, 1, t1); (1, 2, t2)]
-    /\ isomorphic_to t1 t2 = true
-    /\ t_ccompadd t1 = Some [[(1, [0])]; [(1, [1])]]
-    /\ t_ccompadd t2 = Some [[(1, [1])]; [(1, [0])]].
-Print Assumptions C04_refuted_zsh_compadd_levels.
+Example ex_C04_zsh_compadd_levels_not_shared :
+  match all_tables Zsh zc_cdfa [] [(0, [("--p1=", "")]); (1, [("--p2=", "")])] with
+  | Ok (_, a) =>
+      match a_subwords a with
+      | [(0, 1, t1); (1, 2, t2)] =>
+          isomorphic_to t1 t2 = false
+          /\ t_ccompadd t1 = Some [[(1, [0])]; [(1, [1])]]
+          /\ t_ccompadd t2 = Some [[(1, [1])]; [(1, [0])]]
+      | _ => False
+      end
+  | _ => False
+  end.
+Proof. vm_compute. repeat split. Qed.
+Print Assumptions ex_C04_zsh_compadd_levels_not_shared.
 
 (** KNOWN FINDING (all shells; the mechanism behind C09's "same text under two fallback levels"):
     literal ids are keyed by (text, description), not by level, so for cmd (a x || a y); the two
@@ -355,20 +350,15 @@ Print Assumptions C04_refuted_same_text_two_levels.
 (** bash, codec round trip of the table section every function of the script carries (literal list, match
     tables, completion tables), printed from the templates regenerated from bash.rs: the specification-side
     reader gives back exactly the statements [table_stmts t] -- literal texts, every row, every level, the
-    star pairs, max_fallback_level -- and resumes right after the section.  Literals must be outside
-    C07's bash hazard class. *)
+    star pairs, max_fallback_level -- and resumes right after the section, for ALL literal texts (C07). *)
 Theorem C04_embed_bash_tables :
-  forall t : tables,
-    Forall (admissible Bash) (map (fun l => snd (fst l)) (t_literals t)) ->
-    forall (k : nat) (rest : string),
+  forall (t : tables) (k : nat) (rest : string),
     scan (List.length (table_stmts t) + k) Bash
          (append (write_literals t) (append (write_match_transitions t) (append (write_completion_tables t) rest)))
     = table_stmts t ++ scan k Bash rest.
 Proof. exact bash_tables_roundtrip. Qed.
 Check C04_embed_bash_tables :
-  forall t : tables,
-    Forall (admissible Bash) (map (fun l => snd (fst l)) (t_literals t)) ->
-    forall (k : nat) (rest : string),
+  forall (t : tables) (k : nat) (rest : string),
     scan (List.length (table_stmts t) + k) Bash
          (append (write_literals t) (append (write_match_transitions t) (append (write_completion_tables t) rest)))
     = table_stmts t ++ scan k Bash rest.
@@ -437,7 +427,6 @@ Example ex_C04_inhabited :
       /\ read_stmts Bash (append (write_literals (a_main a)) (append (write_match_transitions (a_main a))
                                                                  (write_completion_tables (a_main a))))
          = table_stmts (a_main a)
-      /\ forallb (admissibleb Bash) (map (fun l => snd (fst l)) (t_literals (a_main a))) = true
   | _ => False
   end.
 Proof. vm_compute. repeat split. Qed.
